@@ -42,8 +42,10 @@ Ltac inc_tac I :=
   | (* body *)
     intros s b p [b' [Hb ->]] Hc; cbn [fst snd budget costs];
     py_unfold_ctrl; unfold Qltb; unfold infeasible_any, exh_any; unfold infeasible1, exh1; cbv beta iota zeta;
-    rewrite ?py_any_map, ?py_all_map, ?forallb_as_existsb, ?negb_involutive;
     rewrite (Hp _ b' b _ Hb);
+    py_flag_loops;
+    rewrite ?py_any_map, ?py_all_map, ?forallb_as_existsb, ?negb_involutive, ?existsb_negb_negb;
+    cbn [py_for existsb forallb map]; rewrite ?orb_false_r, ?andb_true_r, ?negb_involutive;
     split;
     [ first [ reflexivity | rewrite <- Hc; apply Qleb_compat; [exact Hb|inc_bound_eq] ] | ];
     try match goal with |- context [if negb (Qle_bool ?x ?y) then Break _ else _] =>
